@@ -880,7 +880,7 @@ class Gen:
         else:
             pre = self.ch(["", "real ", "integer ", "recursive ", "elemental ", "real(wp) ", "character(10) ",
                            "integer(kind=4) ", "real(8) ", "pure real(wp) ", "double precision "])
-            res = self.ch(["", "", " result(resV)", " result(resV)", " result(resV) bind(c)", " bind(c) result(resV)",
+            res = self.ch(["", "", " result(resV)", " result(resV)", " result(resV) bind(c)",
                            " bind(c, name = 'cFun')"])
             if "elemental" in pre and "bind" in res:
                 res = " result(resV)"
